@@ -452,17 +452,35 @@ class Gen:
             return [], [stmt("decl", {v, w}, "var", v, "=", num(3), ",", w, "=", num(4))]
         return [], [stmt("decl", {v}, "var", v, "=", num(3)), stmt("vassign", {v}, v, "=", num(5), target=v)]
 
+    def tags(self, p=0.2):
+        """an optional tag list `{binary}` / `{t1, t2}` of a signal declaration (tokens)"""
+        if self.r.random() >= p:
+            return []
+        self.features.add("signal-tags")
+        return self.r.choice([["{", "binary", "}"], ["{", "t1", ",", "t2", "}"], ["{", "maxbit", "}"]])
+
+    def idiom_complex(self, env):
+        """more than 20 decision points: CS0011 (cyclomatic complexity), a finding without a label"""
+        k = self.fresh("cx")
+        p = env["params"][0] if env["params"] else None
+        out = [stmt("decl", {k}, "var", k, "=", num(0))]
+        for i in range(self.r.choice([21, 22, 25])):
+            c = infix("==", var(p), num(i)) if p else infix("==", num(i), num(3))
+            out.append(["if", "(", cond(c), ")", "{", stmt("vassign", {k}, k, "=", num(i), target=k), "}"])
+        self.features.add("complex")
+        return [], out
+
     def idiom_unconstrained_signal(self, env):
         r = self.r
         q = self.fresh("q")
         form = r.choice(["inter", "input", "array", "two"])
         self.features.add("signal-decl-" + form)
         if form == "inter":
-            return [stmt("decl", {q}, "signal", q, sig=True)], []
+            return [stmt("decl", {q}, "signal", self.tags(0.4), q, sig=True)], []
         if form == "input":
             return [stmt("decl", {q}, "signal", "input", q, sig=True)], []
         if form == "array":
-            return [stmt("decl", {q}, "signal", q, "[", num(3), "]", sig=True)], []
+            return [stmt("decl", {q}, "signal", self.tags(0.4), q, "[", num(3), "]", sig=True)], []
         q2 = self.fresh("q")
         return [stmt("decl", {q, q2}, "signal", q, ",", q2, sig=True)], []
 
@@ -757,8 +775,11 @@ class Gen:
             self.features.add("many-params")
         a, b = self.fresh("a"), self.fresh("b")
         env = {"params": list(dict.fromkeys(params)), "in": [a, b], "needs": set(), "out": True}
-        decls = [stmt("decl", {a}, "signal", "input", a, sig=True), stmt("decl", {b}, "signal", "input", b, sig=True)]
+        decls = [stmt("decl", {a}, "signal", "input", self.tags(), a, sig=True), stmt("decl", {b}, "signal", "input", b, sig=True)]
         body = []
+        if r.random() < 0.02:
+            d, b2 = self.idiom_complex(env)
+            body += b2
         for _ in range(size):
             idi = r.choice(self.TEMPLATE_IDIOMS)
             if idi == "undefined":
@@ -782,7 +803,10 @@ class Gen:
             if i:
                 ptoks.append(",")
             ptoks.append(p)
-        head = ["template", name, "(", S("params", set(params), *ptoks), ")"]
+        mods = r.choice([[], [], [], [], [], ["parallel"], ["custom"], ["custom", "parallel"]])
+        if mods:
+            self.features.add("header-" + "-".join(mods))
+        head = ["template"] + mods + [name, "(", S("params", set(params), *ptoks), ")"]
         tree = S("def", {name}, head, "{", decls, body, "}", params=params)
         return tree, env["needs"], name
 
@@ -961,6 +985,7 @@ def gen_project(rng, idx):
         with_lib = True
     dup_of = None
     argv = ["main.circom"]
+    libs = []
     if with_lib:
         lib_style = rng.choice(STYLES)
         lib_pragma = rng.random() < 0.8
@@ -981,8 +1006,14 @@ def gen_project(rng, idx):
             # a template whose output signals are left unread by the including file (cross-file finding)
             tree.insert(rng.randrange(1 if lib_pragma else 0, len(tree) + 1), g.lib_out_template())
         text, sp, st = render(tree, rng, lib_style, prefix=EXOTIC["bom"] if exotic == "bom0_lib" else "")
-        files["lib.circom"] = text
-        spans["lib.circom"] = sp
+        lib_rel = "lib.circom"
+        if argv == ["main.circom"] and inject != "two_mains" and rng.random() < 0.3:
+            # the included file lives in a library directory handed over with -L / --library
+            lib_rel = "inc/lib.circom"
+            libs = ["inc"]
+            g.features.add("library-directory")
+        files[lib_rel] = text
+        spans[lib_rel] = sp
         includes.append("lib.circom")
         g.features.add("include")
     if inject == "missing_include":
@@ -1024,7 +1055,7 @@ def gen_project(rng, idx):
     spans["main.circom"] = sp
     for k, v in st.items():
         stats[k] = stats.get(k, 0) + v
-    return {"idx": idx, "files": files, "argv": argv, "spans": spans, "style": style,
+    return {"idx": idx, "files": files, "argv": argv, "libs": libs, "spans": spans, "style": style,
             "features": sorted(g.features), "inject": inject, "exotic": exotic, "expect": expect, "trivia": stats}
 
 
